@@ -3,7 +3,7 @@
 From Verif Require Import Base.Tactics Base.ZList Base.Val.
 From Verif Require Import Base.Str.
 From Verif Require Import Model.BufReaderModel Model.RangeModel Model.IsoTimeModel Model.TimingModel Model.SegModel.
-From Verif Require Import Base.Bits Model.CrcModel Model.EventsModel Model.Scte35Model Model.MpsModel Model.AuthModel Model.OptionsModel Model.BoxModel.
+From Verif Require Import Base.Bits Model.CrcModel Model.EventsModel Model.Scte35Model Model.MpsModel Model.AuthModel Model.OptionsModel Model.BoxModel Model.FragModel.
 
 (* ---- C20 ---- request: (file off bs maxb (size?) mode ops) *)
 Definition c20_op (v : val) : op :=
@@ -291,8 +291,32 @@ Definition c04_run (v : val) : val :=
     end
   else verr 995.
 
+(* ---- C03 ---- request: (top traf (tfdt?) prefix_time senc_flags1 origin emsg piff)
+   top = ((code size) ...) codes: 0 styp 1 sidx 2 emsg 3 moof 4 mdat 5 other
+   traf = ((code size) ...) codes: 0 tfhd 1 tfdt 2 trun 3 saiz 4 saio 5 senc 6 piff 7 other *)
+Definition c03_top (c : Z) : top :=
+  if c =? 0 then TStyp else if c =? 1 then TSidx else if c =? 2 then TEmsg else if c =? 3 then TMoof
+  else if c =? 4 then TMdat else TOther.
+Definition c03_top_code (t : top) : Z :=
+  match t with TStyp => 0 | TSidx => 1 | TEmsg => 2 | TMoof => 3 | TMdat => 4 | TOther => 5 end.
+Definition c03_tag (c : Z) : tag :=
+  if c =? 0 then Tfhd else if c =? 1 then Tfdt else if c =? 2 then Trun else if c =? 3 then Saiz
+  else if c =? 4 then Saio else if c =? 5 then Senc else if c =? 6 then Piff else OtherT.
+Definition c03_tag_code (t : tag) : Z :=
+  match t with Tfhd => 0 | Tfdt => 1 | Trun => 2 | Saiz => 3 | Saio => 4 | Senc => 5 | Piff => 6 | OtherT => 7 end.
+Definition c03_run (v : val) : val :=
+  let s := {| s_top := map (fun e => (c03_top (vint (vnth 0 e)), vint (vnth 1 e))) (vlist (vnth 0 v));
+              s_traf := map (fun e => (c03_tag (vint (vnth 0 e)), vint (vnth 1 e))) (vlist (vnth 1 v));
+              s_tfdt := as_opt_int (vnth 2 v); s_prefix_time := vint (vnth 3 v);
+              s_senc_flags1 := 0 <? vint (vnth 4 v) |} in
+  let o := {| o_origin := vint (vnth 5 v); o_emsg := vints (vnth 6 v); o_piff := 0 <? vint (vnth 7 v) |} in
+  VL [VL (map (fun e => VL [VI (c03_top_code (fst e)); VI (snd e)]) (rewrite_top o s));
+      VL (map (fun e => VL [VI (c03_tag_code (fst e)); VI (snd e)]) (rewrite_traf o s));
+      VI (new_time o s); VI (data_offset o s); VI (senc_entry_rel o s); VI (payload_pos o s)].
+
 Definition dispatch (comp : Z) (v : val) : val :=
   if comp =? 20 then c20_run v
+  else if comp =? 3 then c03_run v
   else if comp =? 4 then c04_run v
   else if comp =? 7 then c07_run v
   else if comp =? 15 then c15_run v
